@@ -146,6 +146,9 @@ def run(chk):
 
 def replay(chk, data):
     chk.rule = RULE
+    if "focus" in data.get("input", {}):
+        import history_check as HC
+        return HC.replay_prop(chk, "C04", data, RULE)
     if "targets" in data.get("input", {}):
         check_sets(chk, [data["input"]], "replay")
     else:
